@@ -67,6 +67,7 @@ func (ds *defaultSpreaderPipeline) worker(ctx context.Context, wg *sync.WaitGrou
 				return
 			}
 
+			verifPoint("spread.recv")
 			ds.Lock()
 			ds.spreadBranch(root)
 			ds.Unlock()
@@ -128,7 +129,9 @@ func (f *formattedSpreaderPipeline[T]) spread(ctx context.Context, w io.Writer, 
 				if !ok {
 					break BREAK
 				}
+				verifPoint("fspread.recv")
 				if err := encode(toFormattedNode(root, f.formattedRoot(root.name))); err != nil {
+					verifPoint("fspread.err")
 					errc <- err
 				}
 			}
@@ -164,6 +167,7 @@ func (cs *colorizeSpreaderPipeline) spread(ctx context.Context, w io.Writer, roo
 				if !ok {
 					break BREAK
 				}
+				verifPoint("cspread.recv")
 				cs.fileCounter.reset()
 				cs.dirCounter.reset()
 
